@@ -1369,3 +1369,42 @@ def cloned_pairs(crate, methods=None):
                 res.append((a, key, "violation" if diffs else "pass",
                             "; ".join(diffs)[:600] if diffs else "narrowing, loop conditions, chunk length, old index, chunk agree"))
     return res
+
+
+# --------------------------------------------------------------------------------------------
+# supporting facts for the not-applicable formatting property (reported under C03, not claimed)
+# --------------------------------------------------------------------------------------------
+FMT_PREFIX = {"Binary": "0b", "Octal": "0o", "LowerHex": "0x", "UpperHex": "0x", "Display": ""}
+
+
+def fmt_facts(crate):
+    res = []
+    def find(key):
+        for b in crate.bodies:
+            if b.key == key:
+                return b
+        return None
+    for tr, prefix in FMT_PREFIX.items():
+        for fam, key in (("Bvf", "<Bvf<I, N> as %s>::fmt" % tr), ("Bvd", "<Bvd as %s>::fmt" % tr)):
+            b = find(key)
+            if b is None:
+                res.append((None, "FMT %s %s" % (fam, tr), "violation", "formatting impl missing"))
+                continue
+            pads = [b.e_call(t) for bb, t, fn in b.iter_calls() if fn and fn["name"] == "pad_integral"]
+            ok = len(pads) == 1 and show(pads[0][3][1]) == "true" and show(pads[0][3][2]).strip('"') == prefix
+            res.append((b, "FMT %s %s pad_integral" % (fam, tr), "pass" if ok else "violation",
+                        "returns f.pad_integral(true, \"%s\", digits)" % prefix if ok else
+                        "pad_integral arguments are %s" % [show(a)[:30] for p_ in pads for a in p_[3][1:3]]))
+        if tr == "Display":
+            continue
+        a, d = find("<Bvf<I, N> as %s>::fmt" % tr), find("<Bvd as %s>::fmt" % tr)
+        if a is None or d is None:
+            continue
+        sa, sd = _named_slots(a), _named_slots(d)
+        diffs = ["slot `%s`: Bvf %s vs Bvd %s" % (k, sa[k], sd[k]) for k in sorted(set(sa) & set(sd)) if sa[k] != sd[k]]
+        missing = sorted(set(sa) ^ set(sd))
+        v = "violation" if diffs else ("undecided" if missing else "pass")
+        res.append((a, "SIB Bvf/Bvd %s::fmt" % tr, v,
+                    "; ".join(diffs)[:500] if diffs else ("copies not comparable: %s" % missing if missing else
+                                                          "digit extraction slots of the two hand-written copies agree")))
+    return res
